@@ -123,7 +123,9 @@ def _variant(c, i):
         durs["block_dur"] = (c["b"] + 0.5) / sr
         durs["hop_dur"] = (c["b"] + 0.25) / sr
     if c["lim"] >= 0:
-        g = (0, 0.25, -0.25)[(i // 5) % 3]
+        g = (0, 0.25, -0.25, 0.5, -0.5)[(i // 5) % 5]
+        if abs(g) == 0.5 and c["lim"] % 2:
+            g = 0.25          # exact ties round to the EVEN neighbour: only even limits can be spelled as a tie
         mr = (c["lim"] + g) / sr
         durs["max_read"] = max(0.0, mr)
     return kind, sr, sw, ch, durs
@@ -262,6 +264,14 @@ def reject_table(util, tmpdir):
                     rejected = bool(log) and log[0]["op"] == "construct"
                     expect = (b < 1) or (h > b)
                     rows.append((sr, b, h, kind, expect, rejected, log[0]["k"] if log else None))
+            # hop_dur larger than block_dur by less than one sample period: still "hop_dur > block_dur", still an error
+            for b in range(1, 4):
+                bd = b / sr
+                for hd in ((b + 0.25) / sr, (b + 0.5) / sr, b / sr + 1e-6):
+                    log, info = run_history(util, {"n": 6, "b": b, "h": b, "lim": -1, "rec": False}, [], "bytes", sr, 2, 1,
+                                            {"block_dur": bd, "hop_dur": hd}, tmpdir)
+                    rejected = bool(log) and log[0]["op"] == "construct"
+                    rows.append((sr, b, f"{b}+ ({hd!r} s > {bd!r} s)", "bytes", True, rejected, log[0]["k"] if log else None))
     return rows
 
 
